@@ -513,8 +513,16 @@ func (r *rewriter) goStmt(g *ast.GoStmt) ast.Stmt {
 	for i := range call.Args {
 		r.walkExpr(&call.Args[i])
 	}
+	callee := "func"
+	switch f := call.Fun.(type) {
+	case *ast.SelectorExpr:
+		callee = f.Sel.Name
+	case *ast.Ident:
+		callee = f.Name
+	}
+	gsite := &ast.BasicLit{Kind: token.STRING, Value: fmt.Sprintf("%q", r.pos(g)+" "+callee)}
 	if fl, ok := call.Fun.(*ast.FuncLit); ok && len(call.Args) == 0 {
-		return &ast.ExprStmt{X: simrtCall("Go", r.site(g), fl)}
+		return &ast.ExprStmt{X: simrtCall("Go", gsite, fl)}
 	}
 	lhs := []ast.Expr{ast.NewIdent("_gf")}
 	rhs := []ast.Expr{call.Fun}
@@ -531,7 +539,7 @@ func (r *rewriter) goStmt(g *ast.GoStmt) ast.Stmt {
 	}
 	return &ast.BlockStmt{List: []ast.Stmt{
 		&ast.AssignStmt{Lhs: lhs, Tok: token.DEFINE, Rhs: rhs},
-		&ast.ExprStmt{X: simrtCall("Go", r.site(g), &ast.FuncLit{
+		&ast.ExprStmt{X: simrtCall("Go", gsite, &ast.FuncLit{
 			Type: &ast.FuncType{Params: &ast.FieldList{}},
 			Body: &ast.BlockStmt{List: []ast.Stmt{&ast.ExprStmt{X: inner}}},
 		})},
